@@ -2,8 +2,6 @@
 
 from __future__ import annotations
 
-import itertools
-
 import numpy as np
 import torch
 from hypothesis import strategies as st
@@ -72,42 +70,73 @@ def check_deposit(out, label, expected_blocks: dict[int, np.ndarray], leaves: li
     M64 = M.double().numpy()
     tol = DERIV_TOL[dtype] * max(1.0, scale)
     after = {li: leaves[li].grad for li in idxs}
-    best = None  # (n_bad_blocks, n_bad_slices, worst_err, perm)
-    perms = itertools.permutations(idxs) if len(idxs) <= 5 else [tuple(idxs)]
-    for perm in perms:
-        off = 0
-        bad_blocks = bad_slices = 0
-        worst = 0.0
-        for li in perm:
-            k = expected_blocks[li].shape[1]
-            err = float(np.abs(M64[:, off : off + k] - expected_blocks[li]).max(initial=0.0))
-            worst = max(worst, err)
-            if not err <= tol:
-                bad_blocks += 1
-            sl = r[off : off + k].view(leaves[li].shape)
-            old = grads_before[li]
-            want = sl if old is None else old + sl
-            g = after[li]
-            if g is None or g.shape != want.shape or not torch.equal(g, want):
-                bad_slices += 1
-            off += k
-        cand = (bad_blocks + bad_slices, bad_blocks, bad_slices, worst, perm)
-        if best is None or cand < best:
-            best = cand
-        if bad_blocks == 0 and bad_slices == 0:
-            out.metric(f"ratio:{label}:jacobian-values", worst / tol)
-            return True
-    _, bad_blocks, bad_slices, worst, perm = best
-    if bad_blocks:
+
+    def block_err(li, off):
+        k = expected_blocks[li].shape[1]
+        if off + k > ncols:
+            return float("inf")
+        return float(np.abs(M64[:, off : off + k] - expected_blocks[li]).max(initial=0.0))
+
+    def slice_ok(li, off):
+        k = expected_blocks[li].shape[1]
+        sl = r[off : off + k].view(leaves[li].shape)
+        old = grads_before[li]
+        want = sl if old is None else old + sl
+        g = after[li]
+        return g is not None and g.shape == want.shape and bool(torch.equal(g, want))
+
+    # depth-first search for an ordering of the inputs under which every column block AND every slice matches
+    worst_seen = [0.0]
+    budget = [20000]
+
+    def dfs(off, remaining):
+        if not remaining:
+            return []
+        for li in remaining:
+            budget[0] -= 1
+            if budget[0] < 0:
+                return None
+            err = block_err(li, off)
+            if err <= tol and slice_ok(li, off):
+                rest = dfs(off + expected_blocks[li].shape[1], [x for x in remaining if x != li])
+                if rest is not None:
+                    worst_seen[0] = max(worst_seen[0], err)
+                    return [li] + rest
+        return None
+
+    order = dfs(0, idxs)
+    if order is not None:
+        out.metric(f"ratio:{label}:jacobian-values", worst_seen[0] / tol)
+        return True
+
+    # diagnosis: is there an ordering matching the matrix alone? the slices alone?
+    def dfs_only(pred, off, remaining):
+        if not remaining:
+            return []
+        for li in remaining:
+            budget[0] -= 1
+            if budget[0] < 0:
+                return None
+            if pred(li, off):
+                rest = dfs_only(pred, off + expected_blocks[li].shape[1], [x for x in remaining if x != li])
+                if rest is not None:
+                    return [li] + rest
+        return None
+
+    budget[0] = 20000
+    order_m = dfs_only(lambda li, off: block_err(li, off) <= tol, 0, idxs)
+    budget[0] = 20000
+    order_s = dfs_only(slice_ok, 0, idxs)
+    if order_m is None:
         out.check(False, f"{label}:jacobian-matrix",
-                  f"no ordering of the inputs makes the matrix seen by the aggregator equal to the oracle Jacobian "
-                  f"(best ordering {list(perm)}: {bad_blocks} wrong column blocks, worst error {worst:.3e}, tol {tol:.3e}); "
-                  f"seen {M64.tolist()}")
-    if bad_slices:
+                  f"no ordering of the inputs {idxs} makes the matrix seen by the aggregator equal to the oracle Jacobian "
+                  f"(tol {tol:.3e}); seen {M64.tolist()}; expected blocks {({li: b.tolist() for li, b in expected_blocks.items()})}")
+    if order_s is None or order_m is not None:
         got = {li: (None if after[li] is None else after[li].tolist()) for li in idxs}
         out.check(False, f"{label}:grad-slices",
-                  f"the .grad increments are not the per-input slices of the aggregated vector {r.tolist()} "
-                  f"(best ordering {list(perm)}: {bad_slices} inputs wrong); .grad after = {got}")
+                  f"the .grad increments are not the per-input slices of the aggregated vector {r.tolist()} under any input "
+                  f"ordering consistent with the matrix (matrix ordering {order_m}, slice ordering {order_s}); "
+                  f".grad after = {got}; before = {({li: (None if grads_before[li] is None else grads_before[li].tolist()) for li in idxs})}")
     return False
 
 
